@@ -147,6 +147,9 @@ class RealH:
 
     def default(self, idx, kw):
         from . import progen
+        cls = self.spec['nodes'][idx].get('dflt_raise')
+        if cls:        # a get_default that fails (as in engine_run.World.default)
+            raise progen.EXC[cls](idx, 0, 0)
         return progen.prov(self.spec['nodes'][idx]['name'] + '.default', kw)
 
 
